@@ -41,7 +41,9 @@ CHECKS["C07"] = {
             "fee = commission(q, price x multiplier), once; the parent books exactly that and its net flows are untouched. Correspondence: engine histories weighted "
             "to spreads/commissions/custom prices; per-trade booking oracle on before/after states; per-node per-date ledger oracle on whole backtests "
             "(cash change = flows - own securities' outlays - fees - capital passed to sub-strategies + swept carry).",
-    "note": COMMON_NOTE + " The day-level ledger identity is decided by the oracle on implementation histories plus correspondence; it is not yet a theorem."}
+    "note": COMMON_NOTE + " Ledger theorems for a strategy of securities: one allocate(amount) changes cash by amount - recorded outlays - recorded fees and books the amount as a flow "
+            "(transact: no flow), an update moves the outlay accumulator into the row without changing the sum. The per-date identity over nested trees (capital passed to "
+            "sub-strategies, swept carry) is decided by the oracle on implementation histories plus correspondence."}
 CHECKS["C03"] = {
     "text": "Theorems: a new strategy's index is 100; at every update price x (last value + net flows) = last price x value (market-value strategies), "
             "the index stays put on a zero base with zero value and the update refuses otherwise; a flow of any size and sign leaves the index unchanged when no "
@@ -63,7 +65,9 @@ CHECKS["C02"] = {
             "cost and the fee; every update makes each strategy's value its cash plus its children's values (so capital moved between a parent and a sub-strategy "
             "cancels). Oracle on whole implementation backtests (market-value and fixed-income, nested, with user-written adjustments): day-by-day attribution "
             "V_t - V_{t-1} = sum pos_{t-1} (p_t - p_{t-1}) m + flows + non-flow adjustments + carry_{t-1} - fees_t - bid/offer paid_t from the recorded series; correspondence.",
-    "note": COMMON_NOTE + " The day-level attribution identity itself is decided by the oracle + correspondence, not yet by one theorem."}
+    "note": COMMON_NOTE + " Strategy-level theorems: one allocate(amount) / transact(q) on a strategy of securities (any number of children traded, any commission, spreads, whole or "
+            "fractional units incl. the sizing search) changes cash + sum(position x price x multiplier) by exactly the amount received minus recorded bid/offer minus recorded fees. "
+            "The day-level attribution identity over whole nested trees (price moves, carry) is decided by the oracle + correspondence, not by one theorem."}
 CHECKS["C16"] = {
     "text": "Theorems: after root.update the bankrupt flag is set iff it was set or the freshly summed value of a market-value root is negative (never for fixed income); "
             "the update of a non-root strategy never touches the flag; on a date whose update leaves the root flagged Backtest.run neither runs the algos nor updates again. "
@@ -121,8 +125,9 @@ CHECKS["C09"] = {
             "parent writes into its universe column for the child (unique sibling names). Relational suite: generated nested backtests (calendar-gated children, any "
             "parent schedule incl. never funding a child, integer/fractional, commissions) where every child definition is also backtested stand-alone: child.prices = "
             "stand-alone prices = parent universe column, bit for bit on every date; every run is also compared with the model.",
-    "note": COMMON_NOTE + " Partial: the step theorems are per date and per nesting level (paper_step_l); the induction over dates that turns them into equality of whole series "
-            "is carried by the suite. Children whose stack acts on the synthetic pre-start row are outside the property's quantifier (calendar-gated stacks) and the generator. "
+    "note": COMMON_NOTE + " Over any list of dates the copy's trajectory is the fold of Backtest.run's loop body (plus a refresh that does nothing on a fresh tree), and Backtest.run's "
+            "own loop is the fold of the same body (theorems). Partial: the nesting level of the copies inside the copy (paper_step_l) differs between the nested and the stand-alone "
+            "run, and the stand-alone run's first update happens before its first date; that the two price series are equal row by row is carried by the suite. Children whose stack acts on the synthetic pre-start row are outside the property's quantifier (calendar-gated stacks) and the generator. "
             "A defect found while proving (bankrupt paper copies kept trading) was repaired."}
 CHECKS["C10"] = {
     "text": "Theorems (ill-formed half, every input): an allocation at a missing or zero price, a missing price or coupon on an open position, duplicate ticker "
